@@ -20,7 +20,7 @@ From Base Require Import Prelude Sx Json Rules.
 From Gen Require Import RoomRules TypeAliases PowerLevelTables.
 From C08 Require Import Types Model Spec.
 From C12 Require Types Model Spec.
-From C20 Require Import Model Spec Proofs1 Proofs2 Proofs3 Proofs4 Proofs5.
+From C20 Require Import Model Spec Proofs1 Proofs2 Proofs3 Proofs4 Proofs5 Proofs6 Proofs7.
 
 (** Ban: every actor/target pair (the actor included), every target membership. *)
 Theorem C20_can_ban_user_iff :
@@ -132,6 +132,37 @@ Proof. exact can_send_power_levels_iff. Qed.
 Eval compute in "PA:C20_can_send_power_levels_iff"%string.
 Print Assumptions C20_can_send_power_levels_iff.
 
+(** Re-sending the current power levels unchanged (what [minimal_event] sends for the type
+    m.room.power_levels): the new event must be well-typed as a whole; ruma-events has read
+    everything but the members of [notifications] other than [room]. *)
+Theorem C20_resend_power_levels_iff :
+  forall uid_ok sn_ok verify v R cr c p,
+  rules_of v = Some R -> 3 <= v -> uid_ok cr = true -> of_content uid_ok c = Some p ->
+  levels_readable v c = true -> notifications_typed v c = true ->
+  forall actor target tm sk,
+  user_can_send_state p actor t_power_levels && state_key_ok actor sk
+  = auth_check uid_ok sn_ok verify (authorization R)
+      (minimal_event (ASendState t_power sk) actor target c) (state_of cr c actor target tm).
+Proof. exact resend_power_levels_iff. Qed.
+Eval compute in "PA:C20_resend_power_levels_iff"%string.
+Print Assumptions C20_resend_power_levels_iff.
+
+(** Changing a user's level: the helper says yes exactly when the power-levels event that sets
+    [users[target]] to a different level [n] within the actor's own level is accepted. *)
+Theorem C20_can_change_user_power_level_iff :
+  forall uid_ok sn_ok verify v R cr c p,
+  rules_of v = Some R -> 3 <= v -> uid_ok cr = true -> of_content uid_ok c = Some p ->
+  levels_readable v c = true -> notifications_typed v c = true ->
+  forall actor target tm n,
+  uid_ok target = true -> in_int_range n = true ->
+  (n <= for_user p actor)%Z -> lookup target (p_users p) <> Some n ->
+  user_can_change_user_power_level p actor target
+  = auth_check uid_ok sn_ok verify (authorization R)
+      (minimal_event (AChangeLevel n) actor target c) (state_of cr c actor target tm).
+Proof. exact can_change_user_power_level_iff. Qed.
+Eval compute in "PA:C20_can_change_user_power_level_iff"%string.
+Print Assumptions C20_can_change_user_power_level_iff.
+
 (** Redacting one's own event = sending m.room.redaction (room versions 3-11 have no
     redaction rule of their own). *)
 Theorem C20_can_redact_own_iff :
@@ -222,3 +253,21 @@ Theorem C20_defaults_table :
 Proof. split; [exact defaults_table_ok|exact alias_tables_ok]. Qed.
 Eval compute in "PA:C20_defaults_table"%string.
 Print Assumptions C20_defaults_table.
+
+(** Open finding C20-special-types — the class [plain_type] excludes from
+    [C20_can_send_state_iff] is not empty: for the event types the rules treat on their own the
+    "send this type" helpers and the rules give different answers (empty content = all
+    defaults, a user of level 0; C08.Ids identifier predicates). *)
+Theorem C20_special_types_witness :
+  plain_type 9 s!"m.room.third_party_invite" = false /\ plain_type 5 s!"m.room.aliases" = false /\
+  (forall p, of_content C08.Ids.uid_ok [] = Some p ->
+     user_can_send_state p w_alice s!"m.room.third_party_invite" = false /\
+     user_can_send_state p w_alice s!"m.room.aliases" = false) /\
+  of_content C08.Ids.uid_ok [] <> None /\
+  w_model_accepts rules_v9 [] (ASendState s!"m.room.third_party_invite" s!"token") = true /\
+  w_rules_accept 9 [] (ASendState s!"m.room.third_party_invite" s!"token") = true /\
+  w_model_accepts rules_v5 [] (ASendState s!"m.room.aliases" s!"s1") = true /\
+  w_rules_accept 5 [] (ASendState s!"m.room.aliases" s!"s1") = true.
+Proof. exact special_types_witness. Qed.
+Eval compute in "PA:C20_special_types_witness"%string.
+Print Assumptions C20_special_types_witness.
